@@ -45,9 +45,9 @@ def arr_of(a):
     """spec of an array-ish argument -> python object handed to polliwog"""
     k = a["kind"]
     if k == "arr":
-        return np.array(a["data"], dtype=np.float64).reshape(a["shape"])
+        return np.array(np.reshape(a["data"], a["shape"]), dtype=np.float64)
     if k == "intarr":
-        return np.array(a["data"], dtype=np.int64).reshape(a["shape"])
+        return np.array(np.reshape(a["data"], a["shape"]), dtype=np.int64)
     if k == "list":
         return list(a["data"])
     if k == "scalar":
